@@ -355,6 +355,27 @@ pub fn jint(v: i128) -> Value {
     }
 }
 
+/// The i128-edge amount regime: the model number n * FINE + m (|m| < FINE / 2) stands for n * 2^124 + m, an
+/// embedding that preserves order and sums as long as the small parts stay below FINE / 2 in absolute value;
+/// i128::MAX = 2^127 - 1 is AMAX = 8 * FINE - 1.
+pub const FINE: i64 = 1000;
+pub const AMAX: i64 = 8 * FINE - 1;
+pub fn fine_amount(units: i64) -> i128 {
+    let n = (units + FINE / 2).div_euclid(FINE);
+    let m = (units + FINE / 2).rem_euclid(FINE) - FINE / 2;
+    ((n as i128) << 124).wrapping_add(m as i128)
+}
+/// inverse of `fine_amount`; values off the lattice are logged as `bad`
+pub fn fine_units(v: i128, bad: i64) -> Value {
+    let n = (v >> 124) + ((v >> 123) & 1);
+    let m = v.wrapping_sub(n.wrapping_mul(1i128 << 124));
+    if m.abs() < (FINE / 2) as i128 {
+        json!(n as i64 * FINE + m as i64)
+    } else {
+        json!(bad)
+    }
+}
+
 /// Picks a random element.
 pub fn pick<'a, T>(r: &mut StdRng, xs: &'a [T]) -> &'a T {
     &xs[r.gen_range(0..xs.len())]
